@@ -213,33 +213,56 @@ def check_main_loop(tree):
         raise Untranslatable(f'{PEER}: send_ka = KA(self.proto.connection.session, self.proto) before the loop not found')
     ka_assign_seen = True
     body = loop.body
-    idx = [i for i, s in enumerate(body) if isinstance(s, ast.Try)]
-    idx = [i for i in idx if any('read_message' in ast.unparse(x) for x in body[i].body)]
-    if len(idx) != 1:
-        raise Untranslatable(f'{PEER}: the read_message try-block of the main loop was not found exactly once')
-    i = idx[0]
-    tr_ = body[i]
-    if len(tr_.body) != 1 or not isinstance(tr_.body[0], ast.Assign) or dotted(tr_.body[0].targets[0]) != 'message':
-        raise Untranslatable(f'{PEER}: main loop read is not a single `message = ...`')
-    call = tr_.body[0].value
-    ok = (
-        isinstance(call, ast.Await) and isinstance(call.value, ast.Call) and dotted(call.value.func) == 'asyncio.wait_for'
-        and len(call.value.args) == 1 and stmt_is(call.value.args[0], 'self.proto.read_message()')
-        and len(call.value.keywords) == 1 and call.value.keywords[0].arg == 'timeout'
-        and isinstance(call.value.keywords[0].value, ast.Constant)
-        and isinstance(call.value.keywords[0].value.value, (int, float))
-    )
-    if not ok:
-        raise Untranslatable(f'{PEER}: main loop read is not wait_for(self.proto.read_message(), timeout=<const>): {ast.unparse(call)}')
-    timeout_ms = round(call.value.keywords[0].value.value * 1000)
-    if tr_.orelse or tr_.finalbody or len(tr_.handlers) != 1:
-        raise Untranslatable(f'{PEER}: main loop read has unexpected handlers')
-    h = tr_.handlers[0]
-    if dotted(h.type) != 'asyncio.TimeoutError' or not h.body or not stmt_is(h.body[0], 'message = _NOP'):
-        raise Untranslatable(f'{PEER}: on timeout the main loop does not set message = _NOP first')
-    for s in h.body[1:]:
-        if not stmt_is(s, 'await asyncio.sleep(0)'):
-            raise Untranslatable(f'{PEER}: unexpected statement in the timeout handler: {ast.unparse(s)}')
+    # two accepted shapes of the read step:
+    #  (new) message = await self._read_message_or_nop() ; if message is _NOP: await asyncio.sleep(0)
+    #        with the 100 ms wait inside Peer._read_message_or_nop (a read kept across timeouts)
+    #  (old) try: message = await asyncio.wait_for(self.proto.read_message(), timeout=c) except TimeoutError: message = _NOP
+    new_idx = [i for i, s in enumerate(body) if stmt_is(s, 'message = await self._read_message_or_nop()')]
+    if new_idx:
+        if len(new_idx) != 1:
+            raise Untranslatable(f'{PEER}: the main loop reads more than once')
+        i = new_idx[0]
+        if not (len(body) > i + 1 and stmt_is(body[i + 1], 'if message is _NOP:\n    await asyncio.sleep(0)')):
+            raise Untranslatable(f'{PEER}: unexpected statement after the read step')
+        g = find_function(tree, ['Peer', '_read_message_or_nop'])
+        waits = [n for n in ast.walk(g) if isinstance(n, ast.Call) and dotted(n.func) == 'asyncio.wait']
+        reads = [n for n in ast.walk(g) if isinstance(n, ast.Call) and dotted(n.func) == 'self.proto.read_message']
+        nops = [n for n in ast.walk(g) if isinstance(n, ast.Return) and n.value is not None and dotted(n.value) == '_NOP']
+        if len(waits) != 1 or len(reads) != 1 or len(nops) != 1 or len(waits[0].keywords) != 1 or waits[0].keywords[0].arg != 'timeout':
+            raise Untranslatable(f'{PEER}: _read_message_or_nop is not one asyncio.wait(..., timeout=c) around one read_message() returning _NOP on timeout')
+        tv = waits[0].keywords[0].value
+        if not (isinstance(tv, ast.Constant) and isinstance(tv.value, (int, float))):
+            raise Untranslatable(f'{PEER}: _read_message_or_nop timeout is not a constant')
+        timeout_ms = round(tv.value * 1000)
+        body = body[:i + 1] + body[i + 2:]   # drop the `if message is _NOP` statement for the adjacency test below
+    else:
+        idx = [i for i, s in enumerate(body) if isinstance(s, ast.Try)]
+        idx = [i for i in idx if any('read_message' in ast.unparse(x) for x in body[i].body)]
+        if len(idx) != 1:
+            raise Untranslatable(f'{PEER}: the read_message try-block of the main loop was not found exactly once')
+        i = idx[0]
+        tr_ = body[i]
+        if len(tr_.body) != 1 or not isinstance(tr_.body[0], ast.Assign) or dotted(tr_.body[0].targets[0]) != 'message':
+            raise Untranslatable(f'{PEER}: main loop read is not a single `message = ...`')
+        call = tr_.body[0].value
+        ok = (
+            isinstance(call, ast.Await) and isinstance(call.value, ast.Call) and dotted(call.value.func) == 'asyncio.wait_for'
+            and len(call.value.args) == 1 and stmt_is(call.value.args[0], 'self.proto.read_message()')
+            and len(call.value.keywords) == 1 and call.value.keywords[0].arg == 'timeout'
+            and isinstance(call.value.keywords[0].value, ast.Constant)
+            and isinstance(call.value.keywords[0].value.value, (int, float))
+        )
+        if not ok:
+            raise Untranslatable(f'{PEER}: main loop read is not wait_for(self.proto.read_message(), timeout=<const>): {ast.unparse(call)}')
+        timeout_ms = round(call.value.keywords[0].value.value * 1000)
+        if tr_.orelse or tr_.finalbody or len(tr_.handlers) != 1:
+            raise Untranslatable(f'{PEER}: main loop read has unexpected handlers')
+        h = tr_.handlers[0]
+        if dotted(h.type) != 'asyncio.TimeoutError' or not h.body or not stmt_is(h.body[0], 'message = _NOP'):
+            raise Untranslatable(f'{PEER}: on timeout the main loop does not set message = _NOP first')
+        for s in h.body[1:]:
+            if not stmt_is(s, 'await asyncio.sleep(0)'):
+                raise Untranslatable(f'{PEER}: unexpected statement in the timeout handler: {ast.unparse(s)}')
     if len(body) < i + 3 or not stmt_is(body[i + 1], 'self.recv_timer.check_ka(message)') or not stmt_is(
         body[i + 2], 'await send_ka.send_if_needed()'
     ):
